@@ -9,6 +9,24 @@ LEAN_MODULES = ["ShootVerif.Props.C06"]
 USES_FACTS = False
 DRIVER = "shootmodel_rest"
 
+MANIFEST = dict(
+    text="Lean 4 theorems over a model of `shoot rest` (hand recognisers for the directive regexes, the parameter classification of "
+         "handleExpr/handleStruct, the emitted request assembly `send`): the request directive reads back for all five verbs in any "
+         "spelling, quoted or not (C06_parse_roundtrip); header set = verb defaults overridden by the interface directive (C06_headers); "
+         "for every method and argument vector of region WF the single request carries the directive's verb, the path with every "
+         "placeholder replaced by its alias-resolved argument, the query holding exactly the non-path scalars, struct fields and map "
+         "entries under alias-or-name with nil pointers omitted, the struct argument as body for POST/PUT/PATCH, and the caller's context "
+         "(C06_request, C06_query, C06_placeholders, C06_body, C06_ctx, C06_one_request). Seven finding regions with witness theorems. "
+         "Tied to the code by generating clients with the rebuilt `shoot rest` from random interfaces, compiling them and recording the "
+         "requests they send through a recording RoundTripper for 3-4 argument vectors per method (nil pointers, URL-unsafe strings); the "
+         "model's symbolic url.JoinPath / Values.Encode / Header.Add / json.Marshal are evaluated by the real functions.",
+    note="Lean kernel + standard axioms. Proved at method level (directives parsed to their meaning -> request); the alias/headers "
+         "recognisers and the interface-level glue (method collection, compile/format failures) are tied by the correspondence only. "
+         "Known findings: F_mixedCtx, F_bodyNoStruct, F_ptrDict, F_twoDicts, F_qualScalar, F_nilStructDeref, F_pathArgBrace.",
+    technique="Lean 4 proof (induction over parameter lists, token lists, Go-map association lists) + differential model/implementation "
+              "correspondence on generated, compiled and executed clients",
+    design="5/C06")
+
 FINDING_REGIONS = ["F_mixedCtx", "F_bodyNoStruct", "F_ptrDict", "F_twoDicts", "F_qualScalar", "F_nilStructDeref", "F_pathArgBrace"]
 
 
@@ -16,9 +34,10 @@ def make_case(cid, iface, calls):
     modpath = "verifcases/c_" + cid
     files = restgen.render_package("cs", [iface], modpath=modpath)
     args = ["rest", "-type=" + iface["name"]]
+    blob = json.dumps({"iface": iface, "calls": [{k: v for k, v in c.items() if k != "m"} for c in calls]})
     return {"id": cid, "iface": iface, "calls": calls, "files": files, "runs": [{"args": args}],
             "oracle": {".": restgen.c06_oracle("cs", iface, calls, modpath)},
-            "sexp": restgen.iface_sexp(cid, iface, calls), "cmd": "shoot " + " ".join(args),
+            "sexp": restgen.iface_sexp(cid, iface, calls), "cmd": blob,
             "key": restgen.iface_sexp("k", iface, calls)}
 
 
@@ -300,9 +319,29 @@ def run(ctx, obl):
 
 
 def replay(ctx, payload):
-    print(payload.get("case"))
-    print("cmd  :", payload.get("cmd"))
-    print("impl :", payload.get("impl"))
-    print("model:", payload.get("model"))
-    print("spec :", payload.get("spec"))
-    return 1
+    core.lean_build(LEAN_MODULES + [DRIVER])
+    blob = payload.get("cmd")
+    if not blob:
+        print(json.dumps(payload, indent=1))
+        return 0
+    d = json.loads(blob)
+    iface = d["iface"]
+    byname = {m["name"]: m for m in iface["methods"]}
+    # struct references inside parameters were serialised by value: that is all the renderer needs
+    calls = [dict(c, m=byname[c["method"]]) for c in d["calls"]]
+    c = make_case("replay", iface, calls)
+    impl, model = run_cases(ctx, [c])
+    m = model["replay"]
+    im = impl["replay"]
+    print("case  :", c["sexp"])
+    print("shoot :", c["detail"])
+    print("region:", m["region"])
+    rc = 0
+    for k in sorted(set(m["spec"]) | set(m["model"]) | set(im)):
+        flag = ""
+        if k in m["spec"] and im.get(k) != m["spec"][k]:
+            flag = "   <-- impl differs from spec"
+            if m["region"] == "WF":
+                rc = 1
+        print("  %-14s impl=%s | model=%s | spec=%s%s" % (k, im.get(k), m["model"].get(k), m["spec"].get(k), flag))
+    return rc
